@@ -3,6 +3,7 @@
 package c19session
 
 import (
+	"context"
 	"encoding/json"
 	"fmt"
 	"io"
@@ -58,6 +59,10 @@ type Case struct {
 	// Objects: every other request is for an object (Session.Object with a
 	// reference obtained beforehand through another session) instead of a proxy by name
 	Objects bool `json:"objects,omitempty"`
+	// Cancellers: this many further goroutines call a service through a proxy of
+	// the same session and cancel each call (context) at about the time its
+	// answer arrives, all along
+	Cancellers int `json:"cancellers,omitempty"`
 }
 
 func genCase(t *rapid.T) Case {
@@ -74,9 +79,18 @@ func genCase(t *rapid.T) Case {
 		maxG = 8
 		vt.Excluded("C19:server-queue-overflow")
 	}
+	if rapid.IntRange(0, 2).Draw(t, "cancel") == 0 {
+		c.Cancellers = rapid.IntRange(1, 2).Draw(t, "cancellers")
+		// a cancelled call is two messages (the call, its cancellation): the
+		// number in flight on one connection stays within what the server queues
+		if maxG > 8-3*c.Cancellers {
+			maxG = 8 - 3*c.Cancellers
+		}
+	}
 	c.BigTag = rapid.SampledFrom([]int{0, 0, 2100, 5000, 70000}).Draw(t, "bigtag")
 	c.Churn = rapid.Bool().Draw(t, "churn")
 	c.Objects = rapid.Bool().Draw(t, "objects")
+
 	if rapid.IntRange(0, 2).Draw(t, "late") == 0 {
 		c.Late = rapid.IntRange(1, 6).Draw(t, "nlate")
 	}
@@ -271,6 +285,40 @@ func checkCase(c Case) error {
 	} else {
 		close(churnDone)
 	}
+	cancelDone := make(chan struct{})
+	stopCancel := make(chan struct{})
+	if c.Cancellers > 0 {
+		cpx, err := sess.Proxy("S0_0", 1)
+		if err != nil {
+			return vt.Violationf("C19:proxy-failed", "Proxy(S0_0): %v", err)
+		}
+		var cw sync.WaitGroup
+		for g := 0; g < c.Cancellers; g++ {
+			cw.Add(1)
+			go func(g int) {
+				defer cw.Done()
+				<-start
+				for k := 0; ; k++ {
+					select {
+					case <-stopCancel:
+						return
+					default:
+					}
+					ctx, cancel := context.WithCancel(context.Background())
+					d := time.Duration([]int{0, 10, 40, 120}[(k+g)%4]) * time.Microsecond
+					go func() { time.Sleep(d); cancel() }()
+					pong.MakePingPong(sess, cpx).WithContext(ctx).Hello(fmt.Sprintf("quiet:c%dk%d", g, k))
+					cancel()
+					// a cancelled call comes back before the server has seen it: a plain
+					// call behind it keeps what this goroutine has in flight bounded
+					pong.MakePingPong(sess, cpx).Hello("quiet:behind")
+				}
+			}(g)
+		}
+		go func() { cw.Wait(); close(cancelDone) }()
+	} else {
+		close(cancelDone)
+	}
 	lateDone := make(chan struct{})
 	go func() {
 		defer close(lateDone)
@@ -285,7 +333,7 @@ func checkCase(c Case) error {
 	}()
 	close(start)
 	done := make(chan struct{})
-	go func() { wg.Wait(); close(stopChurn); <-churnDone; <-lateDone; close(done) }()
+	go func() { wg.Wait(); close(stopChurn); close(stopCancel); <-churnDone; <-lateDone; <-cancelDone; close(done) }()
 	select {
 	case <-done:
 	case <-time.After(bound):
@@ -352,6 +400,9 @@ func checkCase(c Case) error {
 	}
 	if c.Objects {
 		labels = append(labels, "objects-by-reference")
+	}
+	if c.Cancellers > 0 {
+		labels = append(labels, "cancelled-calls-beside")
 	}
 	if contended {
 		labels = append(labels, "concurrent-dial-of-one-endpoint")
